@@ -87,6 +87,7 @@ type CliSnap struct {
 
 type SrvSnap struct {
 	Conn string `json:"conn"`
+	Node string `json:"node"`
 	Out  int    `json:"out"`
 	In   int    `json:"in"`
 }
@@ -100,8 +101,9 @@ type Snap struct {
 
 // SeenRec names one epoll event of an iteration: k = "c" client, "s" backend connection, "W" wake-up fd, "L" listener.
 type SeenRec struct {
-	K string `json:"k"`
-	N string `json:"n"`
+	K    string `json:"k"`
+	N    string `json:"n"`
+	Node string `json:"node"` // for k = "s": the node the connection belongs to
 }
 
 // Event is one line of the recorded trace. Every field is always present so that the TLA+ side
